@@ -19,6 +19,7 @@ import (
 	bandtesting "github.com/bandprotocol/chain/v3/testing"
 	"github.com/bandprotocol/chain/v3/x/bandtss"
 	bandtsstypes "github.com/bandprotocol/chain/v3/x/bandtss/types"
+	oracletypes "github.com/bandprotocol/chain/v3/x/oracle/types"
 	"github.com/bandprotocol/chain/v3/x/oracle"
 	tsstypes "github.com/bandprotocol/chain/v3/x/tss/types"
 
@@ -171,31 +172,46 @@ func runCase(app *fx.App, tr *fx.Trace, r *fx.Rng) {
 		}
 		return s
 	}
-	s0 := take()
-	errO := fx.Try(func() error { return oracle.BeginBlocker(ctx, app.OracleKeeper) })
-	s1 := take()
-	for i := 0; i < nd; i++ {
-		d := denoms[i]
-		outs := []any{}
-		for v := range vals {
-			outs = append(outs, jn(s1.outstanding[v][d].Sub(s0.outstanding[v][d])))
+	// the two allocators run in the order the application configures for its begin-blockers (app/modules.go): the bandtss
+	// share must be taken from what the oracle share left
+	oracleStep := func() {
+		s0 := take()
+		errO := fx.Try(func() error { return oracle.BeginBlocker(ctx, app.OracleKeeper) })
+		s1 := take()
+		for i := 0; i < nd; i++ {
+			d := denoms[i]
+			outs := []any{}
+			for v := range vals {
+				outs = append(outs, jn(s1.outstanding[v][d].Sub(s0.outstanding[v][d])))
+			}
+			tr.Op(fx.M{"op": "oracleAlloc", "denom": d, "pool": jn(s0.fee[d]), "pct": opct, "tax": jn(raw(tax)), "nvals": len(vals),
+				"proposer": proposer, "votes": votesJ,
+				"out": fx.M{"err": errO, "transferred": jn(s0.fee[d].Sub(s1.fee[d])), "community": jn(s1.community[d].Sub(s0.community[d])),
+					"outstanding": outs, "supplyDelta": jn(s1.supply[d].Sub(s0.supply[d]))}})
 		}
-		tr.Op(fx.M{"op": "oracleAlloc", "denom": d, "pool": jn(s0.fee[d]), "pct": opct, "tax": jn(raw(tax)), "nvals": len(vals),
-			"proposer": proposer, "votes": votesJ,
-			"out": fx.M{"err": errO, "transferred": jn(s0.fee[d].Sub(s1.fee[d])), "community": jn(s1.community[d].Sub(s0.community[d])),
-				"outstanding": outs, "supplyDelta": jn(s1.supply[d].Sub(s0.supply[d]))}})
 	}
-	errT := fx.Try(func() error { return bandtss.BeginBlocker(ctx, app.BandtssKeeper) })
-	s2 := take()
-	for i := 0; i < nd; i++ {
-		d := denoms[i]
-		ms := []any{}
-		for m := range maddrs {
-			ms = append(ms, jn(s2.members[m][d].Sub(s1.members[m][d])))
+	tssStep := func() {
+		s1 := take()
+		errT := fx.Try(func() error { return bandtss.BeginBlocker(ctx, app.BandtssKeeper) })
+		s2 := take()
+		for i := 0; i < nd; i++ {
+			d := denoms[i]
+			ms := []any{}
+			for m := range maddrs {
+				ms = append(ms, jn(s2.members[m][d].Sub(s1.members[m][d])))
+			}
+			tr.Op(fx.M{"op": "tssAlloc", "denom": d, "pool": jn(s1.fee[d]), "pct": tpct, "tax": jn(raw(tax)), "members": membersJ, "hasGroup": hasGroup,
+				"out": fx.M{"err": errT, "transferred": jn(s1.fee[d].Sub(s2.fee[d])), "community": jn(s2.community[d].Sub(s1.community[d])),
+					"members": ms, "supplyDelta": jn(s2.supply[d].Sub(s1.supply[d]))}})
 		}
-		tr.Op(fx.M{"op": "tssAlloc", "denom": d, "pool": jn(s1.fee[d]), "pct": tpct, "tax": jn(raw(tax)), "members": membersJ, "hasGroup": hasGroup,
-			"out": fx.M{"err": errT, "transferred": jn(s1.fee[d].Sub(s2.fee[d])), "community": jn(s2.community[d].Sub(s1.community[d])),
-				"members": ms, "supplyDelta": jn(s2.supply[d].Sub(s1.supply[d]))}})
+	}
+	for _, name := range app.BeginBlockOrderForVerif() {
+		switch name {
+		case oracletypes.ModuleName:
+			oracleStep()
+		case bandtsstypes.ModuleName:
+			tssStep()
+		}
 	}
 }
 
